@@ -9,7 +9,7 @@ REPLAY = os.path.join(VERIF, 'replay')
 HAVE = {'C01', 'C02', 'C16', 'C17', 'C18', 'C03', 'C04', 'C05', 'C06', 'C07', 'C08', 'C09', 'C10', 'C11', 'C12', 'C13', 'C14', 'C15', 'C19', 'C20'}
 RIDS = {'C08': ['C08', 'C08Q'], 'C07': ['C07']}     # replay-crate dispatch ids per property (default: the property id)
 # dispatch ids of the always-run bounded stand-in where it is a module of its own (the witness search keeps the property id)
-BRIDS = {'C15': ['C15E'], 'C02': ['C02E'], 'C04': ['C04', 'C04B'], 'C01': ['C01E']}
+BRIDS = {'C15': ['C15E'], 'C02': ['C02E'], 'C04': ['C04', 'C04B'], 'C01': ['C01E', 'C01D']}
 _cache = {}
 
 
@@ -86,7 +86,7 @@ BOUNDED = {
                      'and FULL account snapshots listing any mix of active and inactive reports for several instruments (an instrument or an order listed twice, unknown ids), '
                      'timestamps from a small domain (ties and stale reports frequent), the same client order id on two instruments / exchanges: every sequence with repetition '
                      'up to a depth bound over five alphabets plus seeded random histories; after every event every instrument table equals the lifecycle model, held exchange '
-                     'times never move back, orders not named are untouched, a full snapshot is its items applied one by one',
+                     'times never move back, orders not named are untouched, a full snapshot is its items applied one by one; and (dispatch id C01D) the real Engine::process over user commands, scoped commands and strategy ticks with healthy, closed and missing execution links and a refusing risk manager: an order is tracked as in flight after the event exactly when a request for it was reported sent (never for a request that failed to send, was refused or was merely asked for)',
                 bound={'quick': '~1.3M events', 'thorough': '~15.6M events'}),
     'C02': dict(what='END TO END on the real code: unindexed trade account events (the venue-side instrument / asset names) -> AccountEventIndexer over the real '
                      'generate_execution_instrument_map -> EngineState::update_from_account, on two layouts (8 instruments on 3 exchanges, the same exchange symbol on up to '
